@@ -203,6 +203,9 @@ def c19(ctx):
         # refines List.tla and keeps the back pointers; Unshift as it was before 49e0e86 breaks them
         ctx.model_check("DListPtrMC", "DListPtrMC%s.cfg" % ("_deep" if ctx.tier == "thorough" else ""), workers=8, xmx="10g")
         ctx.model_check("DListPtrMC", "DListPtrMC_kf.cfg", expect_violation="Links")
+        # the singly linked list likewise (Unshift copies the embedded node out, a middle Delete overwrites
+        # the node with its successor's contents)
+        ctx.model_check("SListPtrMC", "SListPtrMC%s.cfg" % ("_deep" if ctx.tier == "thorough" else ""), workers=8, xmx="10g")
     return seq_container(ctx, "list", "ListTrace", [("ListMC", "ListMC.cfg")],
                          depth=dict(quick=4, thorough=5), shards=12, after=after)
 
